@@ -181,9 +181,12 @@ def man_json(c):
 # ------------------------------------------------------------------ generation
 def mk_rows(sizes, rng=None, dup_labels=False):
     rows = []
+    # numeric labels whose digit counts differ (1..12, 9..11, 99..101): string order != numeric order
+    t0 = 1 if rng is None else rng.choice([1, 1, 9, 99])
+    b0 = 10 if rng is None else rng.choice([10, 1, 9, 99, 998])
     for i, n in enumerate(sizes):
-        tab = 1 + (i % 3) if rng is None else rng.randint(1, 4)
-        rows.append({"cart": 200 + i, "tray": 100 + i, "tab": tab, "batch": 10 + i, "size": int(n)})
+        tab = 1 + (i % 3) if rng is None else t0 + rng.randint(0, 3)
+        rows.append({"cart": 200 + i, "tray": 100 + i, "tab": tab, "batch": b0 + i, "size": int(n)})
     if dup_labels and len(rows) >= 2:
         rows[-1]["tab"], rows[-1]["batch"] = rows[0]["tab"], rows[0]["batch"]
     return rows
@@ -350,6 +353,65 @@ def oracle_manifest(case):
             if vendor == "D" and [c[8] for c in cs] != sorted(sample):
                 bad.append("Dominion card list is not in sample-number order")
     return bad
+
+
+# ------------------------------------------------------------------ manifests of real size (oracle only)
+def gen_large(rng):
+    """a manifest of 2e5 .. 1.5e6 cards in 100..400 batches over >= 10 tabulators, some batches empty; the card bound is
+    the total, or above it by a tiny (1, 7, 50) or a large amount; or a refusal.  Lookups are spot-checked at batch
+    boundaries (first / last card of several batches, first / last phantom, first / last number)."""
+    nb = rng.randint(100, 400)
+    target = rng.choice([200_000, 500_000, 1_000_000, 1_500_000])
+    mean = target // nb
+    sizes = [rng.randint(mean // 2, mean * 3 // 2) for _ in range(nb)]
+    for j in rng.sample(range(nb), rng.randint(0, 6)) + [0, nb - 1][:rng.randint(0, 2)]:
+        sizes[j] = 0
+    t0, b0 = rng.choice([1, 9, 99]), rng.choice([1, 9, 99, 998])
+    ntab = rng.randint(10, 14)
+    rows = [{"cart": 5000 + i, "tray": 7000 + i, "tab": t0 + (i % ntab), "batch": b0 + i, "size": n}
+            for i, n in enumerate(sizes)]
+    total = sum(sizes)
+    short = rng.choice([0, 1, 1, 7, 7, 50, 50, rng.randint(10_000, 200_000)])
+    kind = rng.choice(["ok"] * 8 + ["over", "cvrs"])
+    if kind == "over":
+        mx, nc = total - rng.choice([1, 7, 50]), total - 100
+    elif kind == "cvrs":
+        mx, nc = total + short, total + rng.choice([1, 7, 50])
+    else:
+        mx, nc = total + short, total - rng.choice([0, 0, 1, 1000])
+    return rows, mx, nc
+
+
+def boundary_sample(vendor, sizes_with_phantom, rng, nbatches=14):
+    lo = 1 if vendor == "D" else 0
+    starts, run = [], 0
+    for n in sizes_with_phantom:
+        starts.append(run)
+        run += n
+    total = run
+    if total == 0:
+        return []
+    nonempty = [b for b, n in enumerate(sizes_with_phantom) if n > 0]
+    chosen = set(rng.sample(nonempty, min(nbatches, len(nonempty))) + nonempty[:2] + nonempty[-2:])
+    nums = {lo, lo + total - 1}
+    for b in chosen:
+        first, last = lo + starts[b], lo + starts[b] + sizes_with_phantom[b] - 1
+        nums.update([first, last, min(last, first + 1), rng.randint(first, last)])
+    nums = list(nums)
+    rng.shuffle(nums)
+    return nums
+
+
+def large_manifest_cases(rng, n):
+    cases = []
+    for _ in range(n):
+        vendor = rng.choice("DH")
+        rows, mx, nc = gen_large(rng)
+        total = sum(r["size"] for r in rows)
+        sizes = [r["size"] for r in rows] + ([mx - total] if mx > total else [])
+        samples = [boundary_sample(vendor, sizes, rng), boundary_sample(vendor, sizes, rng, 4)] if mx >= total else []
+        cases.append(run_manifest(vendor, rows, mx, nc, samples, rng, as_array=rng.random() < 0.5))
+    return cases
 
 
 # ------------------------------------------------------------------ sample_from_cvrs
@@ -565,6 +627,23 @@ def run(ctx, res):
         if len(c["rows"]) >= 2 or total < c["max"] or any(r["size"] == 0 for r in c["rows"]):
             res.nontrivial.add(repr((c["vendor"], [r["size"] for r in c["rows"]], c["max"], c["ncvrs"])))
 
+    # (e) manifests of real size: oracle on the implementation only (size-independent), nothing sent to Coq
+    large = large_manifest_cases(rng, ctx.n(14, 120))
+    res.evaluations += len(large)
+    stats["large_manifests"] = len(large)
+    stats["large_cards_max"] = max(sum(r["size"] for r in c["rows"]) for c in large)
+    stats["large_tiny_shortfall"] = sum(0 < c["max"] - sum(r["size"] for r in c["rows"]) <= 50 for c in large)
+    for c in large:
+        res.oracle_runs += 1
+        for what in dict.fromkeys(oracle_manifest(c)):
+            v = "Dominion" if c["vendor"] == "D" else "Hart"
+            j = man_json(c)
+            j["sizes"], j["labels"] = j["sizes"][:8] + ["..."], j["labels"][:8] + ["..."]
+            j["n_batches"], j["manifest_cards"] = len(c["rows"]), sum(r["size"] for r in c["rows"])
+            j["prep"] = C.jsonable(c["prep"] if c["prep"][0] == "err" else ("ok", "...", c["prep"][2][-2:], c["prep"][3], c["prep"][4]))
+            res.oracle_violations.append({"what": f"{v}: {what}", "input": j, "signature": f"C17:{v}:{what}"})
+        res.nontrivial.add(repr((c["vendor"], len(c["rows"]), c["max"], c["ncvrs"])))
+
     ccases = []
     for _ in range(ctx.n(260, 4000)):
         kind = rng.choice(["plain"] * 7 + ["orphan", "badindex", "dup"])
@@ -589,7 +668,9 @@ def run(ctx, res):
                 "(bound < total, n_cvrs > total); (c) generated manifests of 1..12 batches, sizes 0..40 with empty batches at the "
                 "start/middle/end/consecutive, whole valid range ascending, descending, shuffled, a random subset, list and numpy "
                 "samples, occasionally a number beyond the range, a repeated number, colliding batch labels; (d) sample_from_cvrs "
-                "on CVR lists matching the manifest (some without a batch, phantoms, bad indices, repeats). Non-trivial = at least "
+                "on CVR lists matching the manifest (some without a batch, phantoms, bad indices, repeats); (e) ORACLE ONLY: manifests "
+                "of 2e5..1.5e6 cards in 100..400 batches over 10+ tabulators with numeric labels of differing digit counts, bound = total / "
+                "total+1,7,50 / total+1e4..2e5 / refusals, lookups spot-checked at batch boundaries incl. first/last phantom. Non-trivial = at least "
                 "two batches or an empty batch or a phantom batch (manifests), at least two sampled CVRs (from_cvrs); distinct inputs")
     res.samples = [man_json(c) for c in cases[5:7]] + [man_json(c) for c in cases[-2:]] + [cvr_json(c) for c in ccases[:2]]
     res.stats = stats
